@@ -17,8 +17,9 @@ def registry():
     import props_meta
     import props_io
     import props_equiv
+    import props_sat
     props = {}
-    for mod in (props_solve, props_store, props_enc, props_fault, props_meta, props_io, props_equiv):
+    for mod in (props_solve, props_store, props_enc, props_fault, props_meta, props_io, props_equiv, props_sat):
         for name in dir(mod):
             c = getattr(mod, name)
             if isinstance(c, type) and issubclass(c, engine.Property) and getattr(c, "id", None):
